@@ -940,6 +940,13 @@ class CeiloChunk(AbstractChunk):
             # Reshape the array in anticipation of the GMM routine ...
             gro_heights = gro_heights.reshape(-1, 1)
 
+            # Sub-layer base heights require the hits to be ordered in time. Let's figure out what
+            # this order is (in the same way as for the final base heights) without altering the
+            # order in which the hits get fed to the GMM routine.
+            in_group = self.data['group_id'] == self._groups.at[ind, 'cluster_id']
+            pos_in_group = pd.Series(np.arange(in_group.sum()), index=self.data.index[in_group])
+            time_order = pos_in_group[self.data.sort_values('dt').loc[in_group].index].to_numpy()
+
             # Identify the minimum layer separation given the overall group base height
             min_sep = self._get_min_sep_for_height(self.groups.at[ind, 'height_base'])
 
@@ -950,7 +957,7 @@ class CeiloChunk(AbstractChunk):
 
             # And feed them to a Gaussian Mixture Model to figure out how many components it has ...
             ncomp, sub_layers_id, _ = layer.ncomp_from_gmm(
-                gro_heights, ncomp_max=ncomp_max, min_sep=min_sep,
+                gro_heights, ncomp_max=ncomp_max, min_sep=min_sep, time_order=time_order,
                 layer_base_params={
                     'lookback_perc': self.prms['BASE_LVL_LOOKBACK_PERC'],
                     'height_perc': self.prms['BASE_LVL_HEIGHT_PERC']
